@@ -2393,7 +2393,7 @@ class nxt_packet_in (nicira_base, of.ofp_packet_in):
   def _init (self, kw):
     ofp_header.__init__(self)
 
-    self._buffer_id = None
+    self._buffer_id = of.NO_BUFFER
     self.reason = 0
     self.data = None
     self._total_len = None
